@@ -14,8 +14,8 @@
           other_tracks_untouched_partial, canonical_order_indep_partial            (owner-free histories)
           canonical_is_highest_refuted                                             (general: owned resources)
       merged type satisfies every contributor
-          merge_upper_bound_partial                                                (flat histories)
-          merge_upper_bound_refuted, merge_upper_bound_component_refuted           (general: nested instances, components)
+          merge_upper_bound_partial                                                (flat histories; not nested instances)
+          merge_upper_bound_refuted                                                (general: component requirements)
       instance requirements merge to the union / equal requirements merge to themselves / idempotence
           instance_merge_is_union_partial, aggregate_idempotent_partial, flat_history_invariant   (flat)
       order independence
@@ -23,6 +23,9 @@
           aggregate_order_indep_refuted, aggregate_order_indep_map_refuted         (general)
       fails exactly on conflict
           fails_iff_conflict_partial ("conflict => failure", flat); fails_iff_conflict_refuted (general, other direction)
+    The model follows the repaired aggregator (repository commits 874f221 and 0bf540d: nested instance exports are merged
+    recursively; an aliased primitive is not recorded as replacement of the primitive).  The witnesses that refuted the
+    general statements before the repairs are kept as regression Examples ([repaired_witnesses]).
     Not proved: "failure only on conflict" and "success is order independent" for flat histories (need completeness of the
     checker at the given fuel and panic-freedom of the copy); anything about `use`d types and resources beyond the model
     itself (their behaviour is covered by the correspondence and the executable specification only). *)
@@ -122,21 +125,11 @@ Print Assumptions canonical_is_highest_refuted.
 
     Full statement: for every successful history and every contribution (n, (t, k)) of it,
       Sub (unfold (a_types a) (imports a (canonical a n))) (unfold t k).
-    FALSE of the faithful model ([merge_upper_bound_refuted]: an export that is an instance on both sides is resolved by
-    a subtype check that keeps the supertype; [merge_upper_bound_component_refuted]: component imports are united).
-    Both witnesses are replayed on the real aggregator and SubtypeChecker (known findings nested-instance-not-united,
-    component-imports-united). *)
+    FALSE of the faithful model: component requirements with different imports are merged by uniting the imports, which no
+    contributor's requirement is satisfied by (replayed on the real aggregator and SubtypeChecker on every run: known finding
+    component-imports-united).  (Before repository commit 0bf540d nested instances refuted it as well; see
+    [repaired_witnesses].) *)
 Theorem merge_upper_bound_refuted :
-  exists l a s c tm tr, run l = inl (a, s) /\ In c l /\
-    merged_tree a (fst c) = Some tm /\ req_tree c = Some tr /\ resfree tm = true /\ resfree tr = true /\ ~ SubCM tm tr.
-Proof.
-  destruct upper_bound_witness_nested as [a [s [c [tm [tr [H1 [H2 [H3 [H4 [H5 [H6 [H7 _]]]]]]]]]]]].
-  exists w_nested, a, s, c, tm, tr.
-  refine (conj H1 (conj H2 (conj H3 (conj H4 (conj H5 (conj H6 _)))))). intro X. apply sub_b_iff in X. congruence.
-Qed.
-Print Assumptions merge_upper_bound_refuted.
-
-Theorem merge_upper_bound_component_refuted :
   exists l a s tm, run l = inl (a, s) /\ merged_tree a [102;111;111] = Some tm /\
     forall c, In c l -> exists tr, req_tree c = Some tr /\ ~ SubCM tm tr.
 Proof.
@@ -144,7 +137,7 @@ Proof.
   exists w_comp, a, s, tm. refine (conj H1 (conj H2 _)). intros c Hc. destruct (H3 c Hc) as [tr [E X]]. exists tr.
   refine (conj E _). intro Y. apply sub_b_iff in Y. congruence.
 Qed.
-Print Assumptions merge_upper_bound_component_refuted.
+Print Assumptions merge_upper_bound_refuted.
 
 (** Proved for FLAT histories.  Vocabulary (proofs/AggregatorRemap.v, AggregatorFlat.v, AggregatorHistory.v):
     - [Col] is the set of contributor collections; two members with one arena tag are the same collection, and no member
@@ -158,8 +151,11 @@ Print Assumptions merge_upper_bound_component_refuted.
     - [ord] only ever yields entries of the table it is given ([forall l x, In x (ord l) -> In x l]);
     - [ckey]: the contributed interface (with its arena tag): each interface is contributed once.
     No fuel hypothesis is needed: the theorem speaks about successful histories, and an accepting checker verdict is
-    sound whatever the fuel (AggregatorChecker.v).  Not covered: nested instances / components (refuted above), resources,
-    `use`d types, interfaces whose identifier differs from the import name, one interface contributed twice. *)
+    sound whatever the fuel (AggregatorChecker.v).  Not covered: components (refuted above), resources,
+    `use`d types, interfaces whose identifier differs from the import name, one interface contributed twice.
+    Nested instances are NOT covered although the repaired aggregator merges them recursively: the invariant [HInv] tracks
+    one flat interface per import; a recursive version (interfaces below interfaces, which other imports may share through
+    the interface table) is a separate development. *)
 Theorem merge_upper_bound_partial : forall ord cf fuel (Col : types -> Prop) tag0,
   (forall l x, In x (ord l) -> In x l) ->
   (forall t1 t2, Col t1 -> Col t2 -> t_tag t1 = t_tag t2 -> t1 = t2) -> (forall t, Col t -> t_tag t <> tag0) ->
@@ -174,8 +170,8 @@ Print Assumptions merge_upper_bound_partial.
     [equal_requirements_merge_to_self] in the form "nothing observable changes"): one successful aggregation of a flat
     requirement into the import that carries its name (exact, or the semver-compatible one) leaves that import an
     interface whose export names are the first-seen union; every export keeps its tree (see [flat_upper_bound]'s
-    invariant [carried] / [grows] in AggregatorHistory.v).  Full statement for arbitrary requirements: refuted by the
-    same nested-instance witness (the nested export keeps the poorer instance). *)
+    invariant [carried] / [grows] in AggregatorHistory.v).  Full statement for arbitrary requirements (nested instances,
+    named interfaces shared between imports): stated here, not proved. *)
 Theorem instance_merge_is_union_partial : forall ord cf fuel (Col : types -> Prop) tag0,
   (forall t1 t2, Col t1 -> Col t2 -> t_tag t1 = t_tag t2 -> t1 = t2) -> (forall t, Col t -> t_tag t <> tag0) ->
   forall a s done c a' s' y oid exs,
@@ -226,10 +222,11 @@ Print Assumptions flat_history_invariant.
 
     Full statements: for permutations of the contributor list success is the same and the name -> tree map is the
     same up to the order of imports and exports; aggregation fails exactly when two contributors require
-    incompatible definitions of one item.  FALSE of the faithful model: *)
+    incompatible definitions of one item.  FALSE of the faithful model (known finding interface-id-under-two-import-names:
+    an interface identifier contributed under two import names is unified with the first interface of that identifier, but
+    only when the second name is new at that moment): *)
 Theorem aggregate_order_indep_refuted :
-  exists l l', Permutation l l' /\ (exists a s, run l = inl (a, s)) /\
-               (exists p e, run l' = inr (p, AErr e)).
+  exists l l', Permutation l l' /\ (exists a s, run l = inl (a, s)) /\ (exists p e, run l' = inr (p, AErr e)).
 Proof. exact order_witness. Qed.
 Print Assumptions aggregate_order_indep_refuted.
 
@@ -277,22 +274,35 @@ Proof.
 Qed.
 Print Assumptions aggregate_order_indep_map_refuted.
 
-(** failure (and a panic) although the two requirements have a merge that satisfies both *)
+(** failure without a conflict: three contributions, the first alone on its name, the other two under one other name with
+    a merge that satisfies both - and the aggregation fails (same witness, the failing order) *)
 Theorem fails_iff_conflict_refuted :
-  (exists l p e ta tb tm, run l = inr (p, AErr e) /\
-      req_tree (nth 0 l dflt) = Some ta /\ req_tree (nth 1 l dflt) = Some tb /\ length l = 2%nat /\
-      tmerge ta tb = Some tm /\ SubCM tm ta /\ SubCM tm tb) /\
-  (exists l ta tb tm, run l = inr (1%nat, APanic) /\
-      req_tree (nth 0 l dflt) = Some ta /\ req_tree (nth 1 l dflt) = Some tb /\ length l = 2%nat /\ tmerge ta tb = Some tm).
+  exists l p e tb tc tm, run l = inr (p, AErr e) /\ length l = 3%nat /\
+    compat_spec_b (fst (nth 0 l dflt)) (fst (nth 1 l dflt)) = false /\ fst (nth 1 l dflt) = fst (nth 2 l dflt) /\
+    req_tree (nth 1 l dflt) = Some tb /\ req_tree (nth 2 l dflt) = Some tc /\
+    tmerge tb tc = Some tm /\ SubCM tm tb /\ SubCM tm tc.
 Proof.
-  split.
-  - destruct failure_witness_disjoint as [p [e [ta [tb [tm [H1 [H2 [H3 [H4 [H5 H6]]]]]]]]]].
-    exists w_disjoint, p, e, ta, tb, tm.
-    refine (conj H1 (conj H2 (conj H3 (conj eq_refl (conj H4 (conj _ _)))))); now apply sub_b_iff.
-  - destruct panic_witness as [H1 [ta [tb [H2 [H3 [tm H4]]]]]]. exists w_panic, ta, tb, tm.
-    exact (conj H1 (conj H2 (conj H3 (conj eq_refl H4)))).
+  destruct failure_witness_shared as [l [p [e [tb [tc [tm [H1 [H2 [_ [H4 [H5 [H6 [H7 [H8 [H9 H10]]]]]]]]]]]]]]].
+  exists l, p, e, tb, tc, tm.
+  refine (conj H1 (conj H2 (conj H5 (conj _ (conj H6 (conj H7 (conj H8 (conj _ _)))))))); [|now apply sub_b_iff|now apply sub_b_iff].
+  now apply SemverProofs.str_eqb_eq.
 Qed.
 Print Assumptions fails_iff_conflict_refuted.
+
+(** Regression: the witnesses that refuted [merge_upper_bound], [aggregate_order_indep] and [fails_iff_conflict] before the
+    repairs 0bf540d (nested instances) and 874f221 (alias of a primitive) now behave as the property demands: nested
+    instances {a} + {a,b} and {a} + {b} merge to a type every contributor is satisfied by, a conflict below a nested
+    instance fails in every order, and the aliased primitive no longer panics.  (The same case lines are replayed on the
+    real aggregator from corpus/C09/cases.txt.) *)
+Example repaired_witnesses :
+  (exists a s tm, run w_nested = inl (a, s) /\ merged_tree a [102;111;111] = Some tm /\
+                  forall c, In c w_nested -> exists tr, req_tree c = Some tr /\ sub_b tm tr = true) /\
+  (exists a s tm, run w_disjoint = inl (a, s) /\ merged_tree a [102;111;111] = Some tm /\
+                  forall c, In c w_disjoint -> exists tr, req_tree c = Some tr /\ sub_b tm tr = true) /\
+  (exists a s tm, run w_panic = inl (a, s) /\ merged_tree a [102;111;111] = Some tm /\
+                  forall c, In c w_panic -> exists tr, req_tree c = Some tr /\ sub_b tm tr = true) /\
+  (exists p e, run w_order = inr (p, AErr e)).
+Proof. exact (conj nested_now_united (conj disjoint_now_united (conj alias_primitive_no_panic (proj1 nested_conflict_fails)))). Qed.
 
 (** Non-vacuity of the flat theorems: interfaces {f}, {g}, {f,h} identified by their import names, three versions of one
     track, merge to the union under the highest version. *)
